@@ -636,22 +636,50 @@ func (s *scope) interpretOps(obj pyObject, ops []OpExpression) pyObject {
 		return s.interpretOp(obj, ops[0])
 	}
 	// Multiple operators, need to take precedence into account
-	if ops[0].Op.Precedence() >= ops[1].Op.Precedence() {
-		// The next operator is not higher than us so we can evaluate one more expression
-		return s.interpretOps(s.interpretOp(obj, ops[0]), ops[1:])
+	obj, _ = s.interpretOpsFrom(obj, ops, minPrecedence)
+	return obj
+}
+
+// minPrecedence is lower than the precedence of any operator.
+const minPrecedence = -100
+
+// interpretOpsFrom evaluates the leading operators of ops that bind at least as tightly as minPrec,
+// with obj as their first operand (precedence climbing; operators of equal precedence associate
+// to the left). It returns the result and the operators it did not consume.
+// A unary operator is stored without an expression, directly before the binary operators that follow
+// its operand; it applies to its operand combined with any operators binding more tightly than itself.
+func (s *scope) interpretOpsFrom(obj pyObject, ops []OpExpression, minPrec int) (pyObject, []OpExpression) {
+	if len(ops) > 0 && ops[0].Expr == nil {
+		unary := ops[0]
+		obj, ops = s.interpretOpsFrom(obj, ops[1:], unary.Op.Precedence()+1)
+		obj = s.interpretOp(obj, unary)
 	}
-	// Next operator does have higher precedence so we do that first, unless we short-circuit
-	if ops[0].Op.Lazy() && obj.IsTruthy() != (ops[0].Op == And) {
-		return obj
-	} else if ops[0].Expr == nil {
-		// Unary expression
-		return s.interpretOp(s.interpretOps(obj, ops[1:]), ops[0])
+	for len(ops) > 0 && ops[0].Op.Precedence() >= minPrec {
+		op := ops[0]
+		if op.Op.Lazy() && obj.IsTruthy() != (op.Op == And) {
+			// Short-circuit; the right-hand side (and everything binding more tightly) is not evaluated.
+			ops = skipOps(ops[1:], op.Op.Precedence()+1)
+			continue
+		}
+		var rhs pyObject
+		rhs, ops = s.interpretOpsFrom(s.interpretExpression(op.Expr), ops[1:], op.Op.Precedence()+1)
+		obj = s.interpretOp(obj, OpExpression{
+			Op:   op.Op,
+			Expr: &Expression{optimised: &optimisedExpression{Constant: rhs}},
+		})
 	}
-	nobj := s.interpretOps(s.interpretExpression(ops[0].Expr), ops[1:])
-	return s.interpretOp(obj, OpExpression{
-		Op:   ops[0].Op,
-		Expr: &Expression{optimised: &optimisedExpression{Constant: nobj}},
-	})
+	return obj, ops
+}
+
+// skipOps drops the operators that interpretOpsFrom would consume for the given minimum precedence.
+func skipOps(ops []OpExpression, minPrec int) []OpExpression {
+	if len(ops) > 0 && ops[0].Expr == nil {
+		ops = skipOps(ops[1:], ops[0].Op.Precedence()+1)
+	}
+	for len(ops) > 0 && ops[0].Op.Precedence() >= minPrec {
+		ops = skipOps(ops[1:], ops[0].Op.Precedence()+1)
+	}
+	return ops
 }
 
 func (s *scope) interpretOp(obj pyObject, op OpExpression) pyObject {
